@@ -3,6 +3,8 @@ package main
 // Discharging queries: z3-new first, then z3 4.8.12 and cvc5 raced (DESIGN.md 2.5).
 
 import (
+	"crypto/sha256"
+	"encoding/hex"
 	"bytes"
 	"context"
 	"fmt"
@@ -15,6 +17,7 @@ import (
 )
 
 type SolverCfg struct {
+	CacheDir string // development runs (mutants): verdicts of identical queries are reused
 	NoPatient bool // mutant runs: no second chance for undecided queries
 	WorkDir   string
 	Timeout   time.Duration // per solver attempt
@@ -216,7 +219,23 @@ func solveAll(cfg *SolverCfg, obls []*Obligation, stats *solverStats) {
 					j.q.Verdict = "error: " + err.Error()
 					continue
 				}
+				var ckey string
+				if cfg.CacheDir != "" {
+					sum := sha256.Sum256([]byte(j.q.SMT))
+					ckey = filepath.Join(cfg.CacheDir, hex.EncodeToString(sum[:]))
+					if b, err := os.ReadFile(ckey); err == nil {
+						v := strings.TrimSpace(string(b))
+						if v == "unsat" || (v == "sat" && j.o.ExpectSat) {
+							j.q.Verdict, j.q.Solver = v, "cache"
+							os.Remove(j.f)
+							continue
+						}
+					}
+				}
 				solveQuery(cfg, j.q, j.f, stats)
+				if ckey != "" && (j.q.Verdict == "unsat" || (j.q.Verdict == "sat" && j.o.ExpectSat)) {
+					os.WriteFile(ckey, []byte(j.q.Verdict), 0o644)
+				}
 				if j.q.Verdict == "sat" && !j.o.ExpectSat && len(j.q.Values) > 0 {
 					j.q.Model = getValues(j.f, j.q)
 				}
